@@ -30,21 +30,32 @@ type nativeResult struct {
 // subset picks the scenarios of the companion passes: single-attempt
 // scenarios, spread over the grid.
 func subset(jobs []Job, want int) []int {
-	var idx []int
+	var idx, must []int
 	for i, j := range jobs {
 		if len(j.Sc.Attempts) == 1 && !j.Sc.ShortReads {
+			if c := j.Sc.Attempts[0].Cancel; c != nil {
+				switch c.Kind {
+				case "start", "dialed":
+					// the window between the dial and the driver's first look at
+					// the context is not reachable by a free run
+					continue
+				case "stalled":
+					must = append(must, i) // few, and the only free runs of the driver's watcher
+					continue
+				}
+			}
 			idx = append(idx, i)
 		}
 	}
 	if len(idx) <= want {
-		return idx
+		return append(idx, must...)
 	}
 	step := float64(len(idx)) / float64(want)
 	var out []int
 	for k := 0; k < want; k++ {
 		out = append(out, idx[int(float64(k)*step)])
 	}
-	return out
+	return append(out, must...)
 }
 
 func runNative(bin string, env []string, jobs []nativeJob) ([]nativeResult, string, error) {
@@ -277,8 +288,12 @@ func raceStacks(rep string) (string, string) {
 		}
 		cur, in = nil, false
 	}
-	for _, l := range strings.Split(rep, "\n") {
+	lines := strings.Split(rep, "\n")
+	for li, l := range lines {
 		t := strings.TrimSpace(l)
+		if li+1 < len(lines) && strings.HasPrefix(strings.TrimSpace(lines[li+1]), "<autogenerated>") {
+			continue // compiler-generated forwarding method, not a source site
+		}
 		switch {
 		case strings.HasPrefix(t, "Read at "), strings.HasPrefix(t, "Write at "), strings.HasPrefix(t, "Previous read at "), strings.HasPrefix(t, "Previous write at "),
 			strings.HasPrefix(t, "Atomic "), strings.HasPrefix(t, "Previous atomic "):
